@@ -343,19 +343,17 @@ func BufferSnippet(b []byte) string {
 	return fmt.Sprintf("%q...%q", bStart, bEnd)
 }
 
-func normalizeHeaderValue(ov, ob []byte, headerLength int) (nv, nb []byte, nhl int) {
-	nv = ov
-	length := len(ov)
-	if length <= 0 {
-		return
-	}
-	write := 0
-	shrunk := 0
+// unfoldHeaderValue returns the obs-folded header value ov with the line breaks removed
+// (a leading tab of a continuation line becomes a space).
+//
+// The result is a fresh slice: ov points into the connection's read buffer, which is parsed
+// again from the start when the header block turns out to be incomplete, and whose length the
+// connection keeps counting in wire bytes, so it must not be edited or shortened in place.
+func unfoldHeaderValue(ov []byte) []byte {
+	nv := make([]byte, 0, len(ov))
 	lineStart := false
-	for read := 0; read < length; read++ {
-		c := ov[read]
+	for _, c := range ov {
 		if c == '\r' || c == '\n' {
-			shrunk++
 			if c == '\n' {
 				lineStart = true
 			}
@@ -365,28 +363,9 @@ func normalizeHeaderValue(ov, ob []byte, headerLength int) (nv, nb []byte, nhl i
 		} else {
 			lineStart = false
 		}
-		nv[write] = c
-		write++
+		nv = append(nv, c)
 	}
-
-	nv = nv[:write]
-	copy(ob[write:], ob[write+shrunk:])
-
-	// Check if we need to skip \r\n or just \n
-	skip := 0
-	if ob[write] == '\r' {
-		if ob[write+1] == '\n' {
-			skip += 2
-		} else {
-			skip++
-		}
-	} else if ob[write] == '\n' {
-		skip++
-	}
-
-	nb = ob[write+skip : len(ob)-shrunk]
-	nhl = headerLength - shrunk
-	return
+	return nv
 }
 
 func stripSpace(b []byte) []byte {
